@@ -9,6 +9,7 @@ package simrt
 
 import (
 	"io"
+	"net/http"
 	"os"
 	"sort"
 	"sync/atomic"
@@ -30,6 +31,10 @@ type Hooks struct {
 	Go func(site int, fn func())
 	// Foreign is told about goroutines started at uncontrolled go sites.
 	Foreign func(site int)
+	// Client sees every http.Client the code under test constructs, so a
+	// client that brings its own Transport is routed to the simulated
+	// network as well.
+	Client func(c *http.Client) *http.Client
 }
 
 // H is the attached simulator, nil when idle.
@@ -164,4 +169,20 @@ func GoForeign(site int, fn func()) {
 		return
 	}
 	go fn()
+}
+
+// HTTPClient wraps every &http.Client{...} literal of the code under test.
+func HTTPClient(c *http.Client) *http.Client {
+	if h := H; h != nil && h.Client != nil && c != nil {
+		return h.Client(c)
+	}
+	return c
+}
+
+// HTTPClientV wraps every http.Client{...} value literal.
+func HTTPClientV(c http.Client) http.Client {
+	if h := H; h != nil && h.Client != nil {
+		return *h.Client(&c)
+	}
+	return c
 }
